@@ -6,7 +6,7 @@ PROP = dict(
     bounded_budget=dict(quick=45, thorough=420),
     assumptions=[],
     trusted_base=['z3 5.1 / cvc5 1.0.3', 'pyvc symbolic executor and its encoding of Python (DESIGN.md section 2.3)', 'CPython 3.12, PLY 3.11 (A-PLY)'],
-    manifest=dict(text='Deductive core (tier P, 14 obligations): the operator-less single-instance forms MetaClass.select_one, MetaModel.select_one (class name in any spelling) and NavOneChain.__call__ return the first element in model order or None; MetaClass.navigate across an association class reaches exactly the instances behind any link instance. Bounded: select/navigate results compared with an independent relational evaluation on every model state reachable by API histories of depth <=4/5 and on loaded states, all operator sequences up to 3, chains of length 1-4. Everything else of this property is bounded; the deductive part (apply_query_operators, NavChain) is planned in DESIGN section 5.',
+    manifest=dict(text='Deductive core (tier P, 20 obligations): select_many without operators returns the pool itself, instance by instance, in creation order (MetaClass and MetaModel forms; from the arrival-order clause of OrderedSet.__init__ proved in C17); the operator-less single-instance forms MetaClass.select_one, MetaModel.select_one (class name in any spelling) and NavOneChain.__call__ return the first element in model order or None; MetaClass.navigate across an association class reaches exactly the instances behind any link instance. Bounded: select/navigate results compared with an independent relational evaluation on every model state reachable by API histories of depth <=4/5 and on loaded states, all operator sequences up to 3, chains of length 1-4. Everything else of this property is bounded; the deductive part (apply_query_operators, NavChain) is planned in DESIGN section 5.',
                   note='Stable sort of CPython (A-SORT); the reference evaluator is written from the property text.',
                   technique='bounded stand-in (run-time contracts on the real functions driven by small-scope enumeration; labelled bounded, never counted as proved); contract-based deductive verification (pyvc) only for the operator-less single-instance forms and the hop over an association class, reported separately as tier P; the query operators, navigation chains and ordering are outside the reach of the verifier (reasons in DESIGN.md, build-round status)'),
 )
